@@ -9,10 +9,13 @@
                                             `offset c + mapping[c][i]` (offsets = cumulative list lengths)
   * `transpl_applies_map`                   trans.pl on the POSCAR position list of a state gives the POSCAR list
                                             of `(g*state).reorder(mapping)` when `g` moves positions as its index map says
+  * `transpl_reproduces_endpoint`           … and with C27's soundness theorem: for a mapping returned by
+                                            `equivalencemap`, the script's output is the endpoint's POSCAR list
   * `wrap1_spec`                            Perl's two one-sided wraps change a coordinate by −1, 0 or +1 and land
                                             in [0,1) exactly for arguments in [−1,2)
 -/
 import OnsagerModel.C30
+import OnsagerProofs.C27
 import Mathlib.Data.List.Nodup
 import Mathlib.Data.List.Forall2
 import Mathlib.Tactic.Linarith
@@ -235,6 +238,97 @@ theorem wrap1_spec (x : Rat) :
   · exact ⟨Or.inr (Or.inl rfl), by constructor <;> intro h <;> constructor <;> linarith [h.1, h.2]⟩
   · exact ⟨Or.inr (Or.inr rfl), by constructor <;> intro h <;> constructor <;> linarith [h.1, h.2]⟩
   · exact ⟨Or.inl rfl, by constructor <;> intro h <;> constructor <;> linarith [h.1, h.2]⟩
+
+/-! ### closing the chain: the script's output is the transition endpoint's POSCAR list -/
+
+theorem neworder_eq (mfun : Nat → Nat) (cos mp : List (List Nat))
+    (hshape : List.Forall₂ (fun co r => r.length = co.length ∧ ∀ j ∈ r, j < co.length) cos mp) :
+    ((cos.map (·.map mfun)).zip mp).map (fun (x : List Nat × List Nat) =>
+        (List.range x.1.length).map fun i => x.1.getD (x.2.getD i 0) 0) = newOrder mfun cos mp := by
+  induction hshape with
+  | nil => simp [newOrder]
+  | @cons co r cos' mp' hhead _ ih =>
+    obtain ⟨hlen, hlt⟩ := hhead
+    simp only [List.map_cons, List.zip_cons_cons, newOrder, List.zipWith_cons_cons, List.cons.injEq]
+    refine ⟨?_, by simpa [newOrder] using ih⟩
+    conv_rhs => rw [Onsager.C27.list_eq_range_map r, List.map_map]
+    rw [List.length_map, ← hlen]
+    apply List.map_congr_left
+    intro i hi
+    have hir : i < r.length := List.mem_range.1 hi
+    have hj : r.getD i 0 < co.length := by
+      apply hlt
+      simp [List.getD_eq_getElem?_getD, hir]
+    have hj' : r.getD i 0 < (co.map mfun).length := by simpa using hj
+    simp only [Function.comp]
+    rw [List.getD_eq_getElem?_getD (l := co.map mfun), List.getElem?_eq_getElem hj', Option.getD_some,
+      List.getElem_map, List.getD_eq_getElem?_getD (l := co), List.getElem?_eq_getElem hj, Option.getD_some]
+
+open Onsager.C28 (Cell Inv imul reorder) in
+/-- The ordering produced by `__imul__` + `reorder` is `newOrder` (shape: one mapping list per species list,
+    same length, entries in range). -/
+theorem reorder_imul_chemorder (s s' : Cell) (m : List Nat) (mp : List (List Nat))
+    (hshape : List.Forall₂ (fun co r => r.length = co.length ∧ ∀ j ∈ r, j < co.length) s.chemorder mp)
+    (h : reorder (imul s m) mp = .ok s') :
+    s'.chemorder = newOrder (fun i => m.getD i 0) s.chemorder mp := by
+  simp only [reorder] at h
+  split at h
+  · cases h
+  · split at h
+    · cases h
+      simp only [Onsager.C27.imul_chemorder]
+      exact neworder_eq (fun i => m.getD i 0) s.chemorder mp hshape
+    · cases h
+
+open Onsager.C28 (Cell Inv imul reorder) in
+/-- **End-to-end on the model.**  For a mapping `(k, mapping)` returned by `equivalencemap` for a state
+    cell and a transition endpoint (consistent cells, `G[k]` a permutation), if the op written to the trans
+    file moves positions as its index map says, then `trans.pl` applied to the state's POSCAR position list
+    with the flattened mapping yields exactly the endpoint's POSCAR position list. -/
+theorem transpl_reproduces_endpoint (sc : Onsager.C27.SiteCtx) (G : List (List Nat)) (state endpoint : Cell)
+    (k : Nat) (mp : List (List Nat)) (m : List Nat)
+    (hs : Inv state) (he : Inv endpoint) (hn : state.nchem = endpoint.nchem)
+    (hfound : Onsager.C27.equivalencemap sc G state endpoint = .ok (some (k, mp)))
+    (hk : G[k]? = some m) (hperm : Onsager.C27.IsPerm state.occ.length m)
+    (R : List (List Int)) (t : List Rat) (pos : Nat → List Rat)
+    (hgeo : ∀ i, grot R t (pos i) = pos (m.getD i 0)) :
+    transpl R t (flatMapping mp 0) (state.chemorder.flatten.map pos) = endpoint.chemorder.flatten.map pos := by
+  obtain ⟨m', hk', hsound⟩ := Onsager.C27.equiv_sound sc G state endpoint k mp hfound
+  have hmm : m' = m := by rw [hk] at hk'; exact (Option.some.inj hk').symm
+  subst hmm
+  obtain ⟨hocc, hlen, hspec⟩ := hsound hperm
+  obtain ⟨m2, hk2, hre⟩ := Onsager.C27.equiv_sound_reorder sc G state endpoint k mp hs he hn hfound
+  have hm2 : m2 = m' := by rw [hk] at hk2; exact (Option.some.inj hk2).symm
+  subst hm2
+  have hreorder := hre hperm
+  have hmap : Onsager.C27.permOcc state.occ m2 state.occ = endpoint.occ := by
+    rw [← Onsager.C27.imul_occ]; exact hocc
+  have hmpl : mp.length = state.chemorder.length := by
+    rw [hlen, hs.len, he.len, hn]; simp
+  have hshape : List.Forall₂ (fun co r => r.length = co.length ∧ ∀ j ∈ r, j < co.length) state.chemorder mp := by
+    apply List.forall₂_of_length_eq_of_get hmpl.symm
+    intro c h1 h2
+    have hc : c < state.nchem := by rw [← hs.len]; exact h1
+    obtain ⟨hl1, hl2⟩ := hspec c h2
+    have hp := (Onsager.C27.chemorder_perm state endpoint m2 hs he hn hperm hmap c hc).length_eq
+    have hco : state.chemorder.getD c [] = state.chemorder[c] := by
+      simp [List.getD_eq_getElem?_getD, List.getElem?_eq_getElem h1]
+    have hmpc : mp.getD c [] = mp[c] := by
+      simp [List.getD_eq_getElem?_getD, List.getElem?_eq_getElem h2]
+    have hgl : ((imul state m2).chemorder.getD c []).length = (state.chemorder[c]).length := by
+      rw [Onsager.C27.imul_chemorder]
+      simp [List.getD_eq_getElem?_getD, List.getElem?_map, List.getElem?_eq_getElem h1]
+    simp only [List.get_eq_getElem]
+    rw [hco, List.length_map] at hp
+    refine ⟨by rw [← hmpc, hl1, ← hp], ?_⟩
+    intro j hj
+    obtain ⟨i, hi, rfl⟩ := List.getElem_of_mem hj
+    have hib : i < (endpoint.chemorder.getD c []).length := by rw [← hl1, hmpc]; exact hi
+    have := (hl2 i hib).1
+    rw [hgl, hmpc] at this
+    simpa [List.getD_eq_getElem?_getD, List.getElem?_eq_getElem hi] using this
+  rw [transpl_applies_map R t pos (fun i => m2.getD i 0) hgeo state.chemorder mp hshape,
+    ← reorder_imul_chemorder state endpoint m2 mp hshape hreorder]
 
 /-! ### non-vacuity -/
 
